@@ -214,7 +214,11 @@ Section Main.
       assert (Hse : forallb tb_shp_exp es = true).
       { cbn [tb_shp_stat] in Hs. apply andb_true_iff in Hs. apply Hs. }
       intros st Hne Hg.
-      destruct (local_piece W nm flv es (combine ns ls) c0 c0 b RNone st IHe ltac:(assumption) Hse Hn C2) as [P1 P2]; auto.
+      assert (Hlc : (length es <= length (combine ns ls))%nat).
+      { pose proof Hs as Hs'. cbn [tb_shp_stat] in Hs'. apply andb_true_iff in Hs'. destruct Hs' as [Hs' _].
+        apply andb_true_iff in Hs'. destruct Hs' as [Hs1 Hs2]. apply Nat.eqb_eq in Hs1. apply Nat.leb_le in Hs2.
+        rewrite combine_length. lia. }
+      destruct (local_piece W nm flv es (combine ns ls) c0 c0 b RNone st IHe ltac:(assumption) Hse Hn C2 Hlc) as [P1 P2]; auto.
       + intros [x y] Hin. apply in_combine_r in Hin. destruct (chain_ids W _ _ _ C1 y Hin) as [A1 [_ A3]]. auto.
       + exact I.
       + apply Z.le_refl.
